@@ -1,6 +1,8 @@
 import Knut.Proofs.PipelineProgress
 import Knut.Proofs.PipelineTrace
 import Knut.Proofs.PipelineLoader
+import Knut.Proofs.PipelineErrors
+import Knut.Proofs.PipelineSim
 /-!
 # C19 — Concurrent loading and processing is race-free and terminates
 
@@ -110,6 +112,16 @@ theorem C19_error_reported {S : Sys σ α ε} {s : St σ α ε} (h : Reach S s) 
   obtain ⟨h1, h2, a, hsl, hf⟩ := hi.err_ok k e (hi.rep k e hr)
   exact ⟨k, e, a, hr, h1, h2, hsl, hf⟩
 
+/-- **which errors can be reported**: a recorded (hence also the reported) error of stage `k` is stage `k`'s
+first failure on the stream that reaches it when every stage runs sequentially until its first failure — the
+list `seqErrors S` the correspondence check compares the real `cpr.Seq`'s error against. -/
+theorem C19_error_sequential {S : Sys σ α ε} {s : St σ α ε} (h : Reach S s) {k : Nat} {e : ε}
+    (he : s.err k = some e ∨ s.reported = some (k, e)) : (k, e) ∈ seqErrors S := by
+  have hi := inv_reach h
+  rcases he with he | hr
+  · exact err_mem_seqErrors hi he
+  · exact err_mem_seqErrors hi (hi.rep k e hr)
+
 /-- **never success after a failure**: once a stage has failed no schedule reaches the successful end. -/
 theorem C19_error_never_success {S : Sys σ α ε} {s s' : St σ α ε} {ls : List Label} {k : Nat} {e : ε}
     (he : s.err k = some e) (h : Run S s ls s') : ¬ s'.done S := by
@@ -118,6 +130,15 @@ theorem C19_error_never_success {S : Sys σ α ε} {s s' : St σ α ε} {ls : Li
   rw [hd.2.1 k] at this; cases this
 
 /-! ### logged traces (relaxed acceptor) -/
+
+/-- **the acceptor accepts every behaviour of the model**: the events of any run of the transition system
+(`feed`/`pass` logged as `begin`, `work` as `end`, `fail`, `sink`) are accepted, and the acceptor's counters
+are those of the state reached.  So a logged trace of the real code that the acceptor rejects is not a
+behaviour of the model. -/
+theorem C19_run_accepted {S : Sys σ α ε} {s : St σ α ε} {ls : List Label} (h : Run S (St.initial S) ls s) :
+    accept S.n S.items.length (traceOf ls) = some (accOf S s) := by
+  have := sim_run h (inv_initial S)
+  rwa [accOf_initial] at this
 
 /-- **stage order and one-at-a-time**, for every prefix `p` of an accepted trace: stage `k` has ended at
 most as many items as it has begun and begun at most one more; it has begun at most as many as stage
